@@ -1,24 +1,39 @@
 #!/venv/bin/python
-"""mutate.py <prop> <repo-relative file> <old> <new> [--tier quick]
-Applies a one-off textual edit to /repo, runs the check, restores the file (git checkout).
-Development aid for measuring detection; never leaves /repo modified."""
+"""mutate.py <prop> <repo-relative file> <old> <new> [--tier quick] [--verif DIR]
+
+Development aid for measuring detection: copies /repo/src to a scratch directory, applies a
+one-off textual edit THERE (never touches /repo), runs the check against the copy
+(VERIF_REPO_SRC), prints the tail of its output and removes the copy."""
+import os
+import shutil
 import subprocess
 import sys
+import tempfile
 from pathlib import Path
 
-prop, rel, old, new = sys.argv[1:5]
-tier = sys.argv[6] if len(sys.argv) > 6 and sys.argv[5] == "--tier" else "quick"
-p = Path("/repo") / rel
-src = p.read_text()
-if src.count(old) != 1:
-    print(f"pattern occurs {src.count(old)} times; need exactly 1")
-    sys.exit(2)
+args = sys.argv[1:]
+prop, rel, old, new = args[:4]
+tier = args[args.index("--tier") + 1] if "--tier" in args else "quick"
+verif = args[args.index("--verif") + 1] if "--verif" in args else str(Path(__file__).resolve().parents[2])
+assert rel.startswith("src/")
+scratch = Path(tempfile.mkdtemp(prefix="verif-mut-", dir="/var/tmp"))
 try:
+    shutil.copytree("/repo/src", scratch / "src", ignore=shutil.ignore_patterns("__pycache__"))
+    p = scratch / rel
+    src = p.read_text()
+    if src.count(old) != 1:
+        print(f"pattern occurs {src.count(old)} times; need exactly 1")
+        sys.exit(2)
     p.write_text(src.replace(old, new))
-    r = subprocess.run(["/venv/bin/python", "/verif/harness/check.py", prop, "--tier", tier], cwd="/verif",
-                       capture_output=True, text=True)
+    env = dict(os.environ, VERIF_REPO_SRC=str(scratch / "src"), VERIF_EVIDENCE_DIR=str(scratch / "evidence"),
+               VERIF_REPLAY_DIR=str(scratch / "replay"))
+    r = subprocess.run(["/venv/bin/python", f"{verif}/harness/check.py", prop, "--tier", tier], cwd=verif,
+                       capture_output=True, text=True, env=env)
     print(r.stdout[-3000:])
     print(r.stderr[-2000:])
+    for f in sorted((scratch / "replay").glob("*.json"))[:2]:
+        print("---", f.name)
+        print(f.read_text()[:1500])
     print("exit", r.returncode)
 finally:
-    subprocess.run(["git", "-C", "/repo", "checkout", "--", rel], check=True)
+    shutil.rmtree(scratch, ignore_errors=True)
